@@ -233,6 +233,21 @@ def replay_main(prop, path, strict=False):
     identical record and digest is a harness error (2)."""
     with open(path) as f:
         rp = json.load(f)
+    if rp.get("hash_seed_b") and rp["violation"]["clause"] == "hash-order-independence":
+        # the violation is a difference between two interpreters: execute the scenario under both recorded hash seeds
+        outs = []
+        for hs in (rp["hash_seed"], rp["hash_seed_b"]):
+            env = dict(os.environ)
+            env["PYTHONHASHSEED"] = str(hs)
+            env["PYTHONWARNINGS"] = "ignore"
+            outs.append(subprocess.run([PY, CHECK, prop, "--rdigest", path], env=env, cwd=VERIF, capture_output=True, text=True).stdout.strip())
+        if outs[0] and outs[1] and outs[0] != outs[1]:
+            print("replay: library results differ between PYTHONHASHSEED %s and %s (%s vs %s)"
+                  % (rp["hash_seed"], rp["hash_seed_b"], outs[0][-24:], outs[1][-24:]))
+            print("VIOLATION property=%s replay=%s" % (prop, path))
+            return 1
+        print("replay: results agree under both hash seeds (recorded: %s)" % rp["violation"]["signature"])
+        return 2 if strict else 0
     want = str(rp.get("hash_seed", 0))
     if os.environ.get("PYTHONHASHSEED") != want:
         env = dict(os.environ)
@@ -492,6 +507,7 @@ def main(argv):
     ap.add_argument("--variant", type=int, default=0)
     ap.add_argument("--only")
     ap.add_argument("--out")
+    ap.add_argument("--rdigest")
     ap.add_argument("--minimise")
     ap.add_argument("--in", dest="inp")
     a = ap.parse_args(argv)
@@ -503,6 +519,11 @@ def main(argv):
     if not a.prop:
         ap.error("property id required")
     prop = a.prop.upper()
+    if a.rdigest:
+        with open(a.rdigest) as f:
+            rp = json.load(f)
+        print(load_check(prop).execute(rp["scenario"], script=rp.get("decisions") or None).get("rdigest", ""))
+        return 0
     if a.replay:
         return replay_main(prop, a.replay, a.strict)
     if a.tier not in ("quick", "thorough"):
